@@ -32,9 +32,9 @@ type Call struct {
 type ProxyStore struct {
 	M *storage.MemoryStore
 
-	Log     []Call
-	NoLog   bool
-	calls   int
+	Log   []Call
+	NoLog bool
+	calls int
 	// Before is consulted before each call; a non-nil error is returned to fosite instead of
 	// executing the call.
 	Before func(c *Call) error
